@@ -1,6 +1,8 @@
 use rscel_macro::dispatch;
 
 pub use methods::dispatch as get_date;
+#[cfg(feature = "verif_hooks")]
+pub use methods::verif_inner;
 
 #[dispatch]
 mod methods {
@@ -14,5 +16,11 @@ mod methods {
 
     fn get_date(this: DateTime<Utc>, timezone: String) -> CelResult<i64> {
         Ok(get_adjusted_datetime(this, timezone)?.day() as i64)
+    }
+
+    /// Forwarders to the typed overloads, for the external verification harness.
+    #[cfg(feature = "verif_hooks")]
+    pub mod verif_inner {
+        pub fn utc(this: chrono::DateTime<chrono::Utc>) -> i64 { super::get_date_zti(this) }
     }
 }
